@@ -94,6 +94,27 @@ Proof.
   - apply finite_set_cont; [exact Hst | reflexivity].
 Qed.
 
+(* the API write (after /repo 0aeb22c): Err on a non-finite value, otherwise the value is stored *)
+Theorem api_set_number_finite c v st st' :
+  api_set_number N c v st = Some st' -> finite_store N st -> finite_store N st'.
+Proof.
+  unfold api_set_number. destruct (nis_finite N v) eqn:E; [|discriminate].
+  intros H Hst. injection H as <-. apply finite_set_cont; [exact Hst | exact E].
+Qed.
+Theorem api_set_number_rejects c v st : nis_finite N v = false -> api_set_number N c v st = None.
+Proof. intro E. unfold api_set_number. rewrite E. reflexivity. Qed.
+
+(* the import conversion (after /repo 3c03706): whatever the text of <v>, the number is finite *)
+Theorem import_number_finite t : nis_finite N (import_number N t) = true.
+Proof.
+  unfold import_number. destruct (nof_text_strict N _) as [v|]; [|exact Hzero].
+  destruct (nis_finite N v) eqn:E; [exact E | exact Hzero].
+Qed.
+Theorem import_cell_finite c k t st : finite_store N st -> finite_store N (import_cell N c k t st).
+Proof.
+  intro Hst. apply finite_set_cont; [exact Hst|]. destruct k; cbn; apply import_number_finite.
+Qed.
+
 End Sink.
 
 (* ---- the former refutations (F09, F09b), now examples of the guard; bounded toy numbers (overflow = non-finite) ---- *)
@@ -131,4 +152,12 @@ Lemma typed_overflow_is_text :
   cont (type_number BOps A1 [57;57;57;57;57;57;57] (store_of [])) A1 = CString [57;57;57;57;57;57;57] /\
   no_nonfinite_b BOps [A1] (type_number BOps A1 [57;57;57;57;57;57;57] (store_of [])) = true /\
   cont (type_number BOps A1 [57;57] (store_of [])) A1 = CNumber (Some 99).
+Proof. vm_compute. repeat split; reflexivity. Qed.
+
+(* the API and the importer on the toy numbers: an overflowing value is refused / read as 0 *)
+Lemma api_import_examples :
+  api_set_number BOps A1 None (store_of []) = None /\
+  cont (import_cell BOps A1 ImpNumberCell (Some [57;57;57;57;57;57;57]) (store_of [])) A1 = CNumber (Some 0) /\
+  cont (import_cell BOps A1 ImpNumberCell (Some [57;57]) (store_of [])) A1 = CNumber (Some 99) /\
+  cont (import_cell BOps A1 ImpNumberCell None (store_of [])) A1 = CNumber (Some 0).
 Proof. vm_compute. repeat split; reflexivity. Qed.
